@@ -67,7 +67,7 @@ fn run_sample(body: dnsverif::registry::SampleBody, seed: u32) -> Option<String>
 fn main() {
     let args: Vec<String> = std::env::args().collect();
     if args.len() == 2 && args[1] == "--list" {
-        for n in dnsverif::registry::NAMES.iter().chain(dnsverif::registry::gen::NAMES.iter()) {
+        for n in dnsverif::registry::all_names().iter() {
             println!("{}", n);
         }
         return;
@@ -77,7 +77,7 @@ fn main() {
         let filter = args.get(2).cloned().unwrap_or_default();
         let mut bad = 0;
         let mut n = 0;
-        for name in dnsverif::registry::NAMES.iter().chain(dnsverif::registry::gen::NAMES.iter()) {
+        for name in dnsverif::registry::all_names().iter() {
             if !name.contains(&filter) {
                 continue;
             }
@@ -96,9 +96,10 @@ fn main() {
                         bad += 1;
                         println!("SELFCHECK {} seed={} violated role={}", name, seed, role);
                     }
-                    Err(_) => {
+                    Err(e) => {
                         bad += 1;
-                        println!("SELFCHECK {} seed={} panic", name, seed);
+                        let msg = if let Some(s) = e.downcast_ref::<&str>() { s.to_string() } else if let Some(s) = e.downcast_ref::<String>() { s.clone() } else { "?".to_string() };
+                        println!("SELFCHECK {} seed={} panic {}", name, seed, msg.replace('\n', " "));
                     }
                 }
             }
